@@ -315,7 +315,13 @@ def run_case(case):
         for k2, vn2 in (("ok", "ok"), ("dq", "too_short_300d"), ("poor", "weather_independent_noise"), ("dq_poor", "gaps_and_noise")):
             try:
                 _, b2, e2, _ = next(c for c in concrete(family, k2) if c[0] == vn2)
-                d2 = make_baseline(family, b2(), e2)
+                fr2 = b2()
+                if "ghi" in vname and "ghi" not in fr2.columns:
+                    # a model fitted (and stored) with an irradiance feature is refitted on data that carry the column: refusing a
+                    # baseline without it is that model's documented behaviour, not a gate decision
+                    fr2 = fr2.copy()
+                    fr2["ghi"] = ds.hourly_ghi(fr2.index, 0)
+                d2 = make_baseline(family, fr2, e2)
                 pr = new_model(family, settings)
                 pr.fit(d2, ignore_disqualification=True)
                 poor2, _ = poor_by_statistics(family, pr)
